@@ -147,8 +147,8 @@ class C09(Check):
 
     def oracle(self, case, io):
         if case['kind'] == 'row':
-            v = OS.row_violation(io)
-            if v and v[0] in ('gating', 'gating-probe', 'refusal'):
+            v = OS.row_violation(io, ('gating', 'gated-element', 'gating-probe', 'refusal'))
+            if v:
                 return ('C09:%s:%s' % (v[0], case['key']), v[1])
             return None
         # property directly: refused (missing / with-defaults error) with nothing sent iff a documented dependency is not advertised
